@@ -57,6 +57,8 @@ def run_worlds(chk, prop, n, streams=("regular",), seed_tag="e2e"):
         for fn in sorted(os.listdir(cdir)):
             if fn.endswith(".json"):
                 c = json.load(open(os.path.join(cdir, fn)))
+                if c.get("props") and prop not in c["props"]:
+                    continue   # a world kept for one property only (it leaves the scope of the others)
                 c["world"].setdefault("stream", "corpus")
                 jobs.append((c["world"], c["seed"]))
     for i in range(n):
@@ -104,6 +106,14 @@ def compare(runs):
             if a[:m] != b[:m]:
                 k = next(j for j in range(m) if a[j] != b[j])
                 dis.append((i, f"row {k}: impl {a[k]!r} != model {b[k]!r} (watchdog run)"))
+            continue
+        if rep.get("err") == "NotImplementedError" and len(b) <= len(a) and a[: len(b)] == b and any(
+            x.split(",")[1:2] in (["TASK_PREEMPT"], ["TASK_MIGRATION"]) for x in a[len(b):]
+        ):
+            # the implementation entered its preemption / migration code (a decision for a task that is already
+            # running): outside the simulator model, which stops with its explicit out-of-scope outcome; everything
+            # up to that point agrees
+            r["out_of_scope"] = "preemption/migration"
             continue
         if a != b:
             k = next((j for j in range(min(len(a), len(b))) if a[j] != b[j]), min(len(a), len(b)))
@@ -336,6 +346,14 @@ def oracle(prop, run):
                 cause = "join-with-several-parents-on-the-taken-branch"
             elif "occurred in the past" in msg:
                 cause = "placement-in-the-past"
+            elif "Rescheduling of PREEMPTED tasks" in msg and any(len(r) > 2 and r[1] == "SCHEDULER_FINISHED" and int(r[2]) > 0 for r in rows[-40:]):
+                # the decision of a time-consuming invocation arrives for a task that is no longer waiting
+                cause = "decision-for-a-task-that-moved-on-during-the-scheduler-invocation"
+            elif "cannot step backwards" in msg and any(
+                len(r) > 2 and r[1] == "SCHEDULER_FINISHED" and int(r[2]) > 0 and int(r[0]) > flags["loop_timeout"] >= int(r[0]) - int(r[2]) for r in rows
+            ):
+                # a scheduler invocation that takes simulated time started before the loop timeout and finished after it
+                cause = "scheduler-invocation-spans-the-loop-timeout"
             elif "Trying to allocate more than" in msg and any(
                 len({k.split(":")[0] for k in st["resource_requirements"]}) < len(st["resource_requirements"])
                 for p_ in world["workload"]["profiles"] for st in p_["execution_strategies"]
@@ -371,7 +389,10 @@ def oracle(prop, run):
                 for lab, t in tasks.items():
                     if t["state"] == "RELEASED" and t["fits_empty"] and t["release"] is not None and 0 <= t["release"] and endt - t["release"] > slack:
                         if not any(x >= t["release"] for x in starts_at):
-                            yield ("C05 scheduler-never-ran-after-a-task-was-released", {"task": lab, "released": t["release"], "end": endt, "last_scheduler_start": max(starts_at, default=None)})
+                            # was the task released while a (time-consuming) scheduler invocation was under way?
+                            during = any(len(r) > 2 and r[1] == "SCHEDULER_FINISHED" and int(r[2]) > 0 and int(r[0]) - int(r[2]) < t["release"] <= int(r[0]) for r in rows)
+                            yield ("C05 scheduler-never-ran-after-a-task-was-released" + (" released-during-a-scheduler-invocation" if during else ""),
+                                   {"task": lab, "released": t["release"], "end": endt, "last_scheduler_start": max(starts_at, default=None)})
                             break
                 if greedy and fits and not zero_rt and flags["loop_timeout"] == MAXSIZE:
                     bad = [lab for lab, t in tasks.items() if t["state"] not in ("COMPLETED", "CANCELLED")]
